@@ -15,27 +15,38 @@ contract(A, '_index_of', variant='flattened-matrix', kind='assumed', params={'ar
              ('position-in-lookup', 'all(all(0 <= result[s][j] and result[s][j] < len(lookup) and lookup[result[s][j]] == arr[s][j] for j in range(len(arr[s]))) for s in range(len(arr)))')])
 
 _STORED = 'any(cols[s][j] == channel_ids[k] for j in range(len(cols[s])))'
-contract(M, 'from_sparse', props=['C06'], params={'data': 'mat[real]', 'cols': 'mat[int]', 'channel_ids': 'arr[int]'}, result='mat[real]',
+contract(M, 'from_sparse', variant='rank2', props=['C06'], theory=['unique-count'], params={'data': 'mat[real]', 'cols': 'mat[int]', 'channel_ids': 'arr[int]'}, result='mat[real]',
     requires=[('one-column-table-entry-per-stored-value', 'same_lengths(data, cols)'),
               ('channel-ids-are-non-negative', 'all(channel_ids[k] >= 0 for k in range(len(channel_ids)))')],
     raises=[('NotImplementedError', 'not all(channel_ids[a] != channel_ids[b] for a in range(len(channel_ids)) for b in range(a + 1, len(channel_ids)))', 'iff')],
     # from the statement: "returns, at position (spike, channel), the stored value whose column index names that channel ..., and zero where
     # that channel is not stored, independently of the order of the requested channels"
-    ensures=[('one-row-per-spike-one-column-per-requested-channel', 'len(result) == len(data) and all(len(result[s]) == len(channel_ids) for s in range(len(result)))'),
+    ensures=[('one-row-per-spike-one-column-per-requested-channel', 'len(result) == len(data) and width(result) == len(channel_ids)'),
              ('stored-value-whose-column-index-names-the-channel', 'all(all(implies(%s, any(cols[s][j] == channel_ids[k] and result[s][k] == data[s][j] for j in range(len(cols[s])))) for k in range(len(channel_ids))) for s in range(len(data)))' % _STORED),
              ('zero-where-the-channel-is-not-stored', 'all(all(implies(not %s, result[s][k] == 0) for k in range(len(channel_ids))) for s in range(len(data)))' % _STORED)])
+
+# "incl. extra trailing dimensions": data of shape (n_spikes, n_channels_loc, p); a cell (spike, column) is the whole trailing vector
+from pyvc.contract import declare_ufunc
+declare_ufunc('zero_cell', ['int'], 'elem')
+contract(M, 'from_sparse', variant='rank3', props=['C06'], theory=['unique-count'], params={'data': 'cube[elem]', 'cols': 'mat[int]', 'channel_ids': 'arr[int]'}, result='cube[elem]',
+    requires=[('one-column-table-entry-per-stored-value', 'same_lengths(data, cols)'),
+              ('channel-ids-are-non-negative', 'all(channel_ids[k] >= 0 for k in range(len(channel_ids)))')],
+    raises=[('NotImplementedError', 'not all(channel_ids[a] != channel_ids[b] for a in range(len(channel_ids)) for b in range(a + 1, len(channel_ids)))', 'iff')],
+    ensures=[('one-row-per-spike-one-column-per-requested-channel', 'len(result) == len(data) and width(result) == len(channel_ids) and depth(result) == depth(data)'),
+             ('stored-value-whose-column-index-names-the-channel', 'all(all(implies(%s, any(cols[s][j] == channel_ids[k] and result[s][k] == data[s][j] for j in range(len(cols[s])))) for k in range(len(channel_ids))) for s in range(len(data)))' % _STORED),
+             ('zero-where-the-channel-is-not-stored', 'all(all(implies(not %s, result[s][k] == zero_cell(depth(data))) for k in range(len(channel_ids))) for s in range(len(data)))' % _STORED)])
 
 # ---- get_template_features: rank 2 throughout ---------------------------------------------------------------------------------------------
 from pyvc.contract import declare_class
 declare_class('SparseStore2', M, fields={'data': 'mat[real]', 'cols': 'opt[mat[int]]', 'rows': 'opt[arr[int]]'})
-declare_class('TemplateModel', M, fields={'sparse_template_features': 'opt[obj[SparseStore2]]', 'spike_templates': 'arr[int]', 'n_templates': 'int'})
+declare_class('TemplateModel', M)
 _TF = 'self.sparse_template_features'
 _D, _C, _R, _ST = _TF + '.data', _TF + '.cols', _TF + '.rows', 'self.spike_templates'
 _TL = 'len(%s[0])' % _D       # stored columns per spike (matrix width; only read when the store has rows)
 # column table row of requested spike i / stored row of requested spike i, per storage layout
 _colmatch = lambda i, j, t: '%s[%s[spike_ids[%s]]][%s] == %s' % (_C, _ST, i, j, t)
-contract(M, 'TemplateModel.get_template_features', props=['C06'], params={'spike_ids': 'arr[int]'}, result='opt[mat[real]]',
-    fields={'sparse_template_features': 'opt[obj[SparseStore2]]', 'spike_templates': 'arr[int]', 'n_templates': 'int'},
+contract(M, 'TemplateModel.get_template_features', props=['C06'], theory=['intersect1d-L1'], params={'spike_ids': 'arr[int]'}, result='opt[mat[real]]',
+    fields={'sparse_template_features': 'opt[obj[SparseStore2]]', 'spike_templates': 'arr[int]', 'spike_clusters': 'arr[int]', 'n_templates': 'int'},
     requires=[('spike-ids-valid', 'all(0 <= spike_ids[i] and spike_ids[i] < len(%s) for i in range(len(spike_ids)))' % _ST),
               ('templates-valid', 'self.n_templates >= 0 and all(0 <= %s[s] and %s[s] < self.n_templates for s in range(len(%s)))' % (_ST, _ST, _ST)),
               ('column-table-has-one-row-per-template', 'implies(%s is not None and %s is not None, len(%s) == self.n_templates and same_widths(%s, %s))' % (_TF, _C, _C, _C, _D)),
@@ -44,7 +55,7 @@ contract(M, 'TemplateModel.get_template_features', props=['C06'], params={'spike
               # "values are claimed for stored spikes only"; with a row table the request is a spike-id SUBSET (increasing ids)
               ('requested-spikes-are-stored-and-increasing', 'implies(%s is not None and %s is not None, all(any(%s[q] == spike_ids[i] for q in range(len(%s))) for i in range(len(spike_ids))) and all(spike_ids[a] < spike_ids[b] for a in range(len(spike_ids)) for b in range(a + 1, len(spike_ids))))' % (_TF, _R, _R, _R))],
     ensures=[('nothing-without-a-store', 'iff(result is None, %s is None)' % _TF),
-             ('one-row-per-spike-one-column-per-template', 'implies(%s is not None, len(result) == len(spike_ids) and all(len(result[i]) == self.n_templates for i in range(len(result))))' % _TF),
+             ('one-row-per-spike-one-column-per-template', 'implies(%s is not None, len(result) == len(spike_ids) and width(result) == self.n_templates)' % _TF),
              # with a row table: THE stored row q of a requested spike is the one whose listed id is that spike (it exists and is unique by the preconditions)
              # dense column layout (no column table): stored column j IS template j
              ('all-spikes-stored-identity-columns', 'implies(%s is not None and %s is None and %s is None, all(all(result[i][t] == ite(t < width(%s), %s[spike_ids[i]][t], 0) for t in range(self.n_templates)) for i in range(len(spike_ids))))' % (_TF, _R, _C, _D, _D)),
@@ -57,3 +68,43 @@ contract(M, 'TemplateModel.get_template_features', props=['C06'], params={'spike
                  'implies(any(%s for j in range(width(%s))), any(%s and result[i][t] == %s[q][j] for j in range(width(%s)))) and '
                  'implies(not any(%s for j in range(width(%s))), result[i][t] == 0) for t in range(self.n_templates))) for q in range(len(%s))) for i in range(len(spike_ids))))'
                  % (_TF, _R, _C, _R, _colmatch('i', 'j', 't'), _D, _colmatch('i', 'j', 't'), _D, _D, _colmatch('i', 'j', 't'), _D, _R))])
+
+# ---- get_features: rank-3 store (n_stored, n_channels_loc, n_pcs); the PCA fallback (no store, extracted waveforms) stays bounded -------------
+declare_class('SparseStore3', M, fields={'data': 'cube[elem]', 'cols': 'opt[mat[int]]', 'rows': 'opt[arr[int]]'})
+_SF = 'self.sparse_features'
+_FD, _FC, _FR = _SF + '.data', _SF + '.cols', _SF + '.rows'
+_fmatch = lambda i, j, k: '%s[%s[spike_ids[%s]]][%s] == channel_ids[%s]' % (_FC, _ST, i, j, k)
+_VAL_TABLE = ('all(implies(any(%s for j in range(width(%s))), any(%s and result[i][k] == %s[ROW][j] for j in range(width(%s)))) and '
+              'implies(not any(%s for j in range(width(%s))), result[i][k] == zero_cell(depth(%s))) for k in range(len(channel_ids)))'
+              % (_fmatch('i', 'j', 'k'), _FD, _fmatch('i', 'j', 'k'), _FD, _FD, _fmatch('i', 'j', 'k'), _FD, _FD))
+_IDMATCH = 'any(j == channel_ids[k] for j in range(width(%s)))' % _FD
+_VAL_IDENT = ('all(implies(0 <= channel_ids[k] and channel_ids[k] < width(%s), result[i][k] == %s[ROW][channel_ids[k]]) and '
+              'implies(not (0 <= channel_ids[k] and channel_ids[k] < width(%s)), result[i][k] == zero_cell(depth(%s))) for k in range(len(channel_ids)))' % (_FD, _FD, _FD, _FD))
+_VAL_IDENT_A = ('all(implies(0 <= channel_ids[k] and channel_ids[k] < width(%s), result[i][k] == %s[ROW][channel_ids[k]]) for k in range(len(channel_ids)))' % (_FD, _FD))
+_VAL_IDENT_B = ('all(implies(not (0 <= channel_ids[k] and channel_ids[k] < width(%s)), result[i][k] == zero_cell(depth(%s))) for k in range(len(channel_ids)))' % (_FD, _FD))
+contract(M, 'TemplateModel.get_features', props=['C06'], params={'spike_ids': 'arr[int]', 'channel_ids': 'arr[int]'}, result='opt[cube[elem]]',
+    fields={'sparse_features': 'opt[obj[SparseStore3]]', 'spike_waveforms': 'none', 'spike_templates': 'arr[int]', 'spike_clusters': 'arr[int]', 'n_templates': 'int'},
+    requires=[('spike-ids-valid', 'all(0 <= spike_ids[i] and spike_ids[i] < len(%s) for i in range(len(spike_ids)))' % _ST),
+              ('templates-valid', 'self.n_templates >= 0 and all(0 <= %s[s] and %s[s] < self.n_templates for s in range(len(%s)))' % (_ST, _ST, _ST)),
+              ('requested-channels-distinct-non-negative', 'all(channel_ids[k] >= 0 for k in range(len(channel_ids))) and all(channel_ids[a] != channel_ids[b] for a in range(len(channel_ids)) for b in range(a + 1, len(channel_ids)))'),
+              ('column-table-has-one-row-per-template', 'implies(%s is not None and %s is not None, len(%s) == self.n_templates and same_widths(%s, %s))' % (_SF, _FC, _FC, _FC, _FD)),
+              ('store-without-row-table-holds-all-spikes', 'implies(%s is not None and %s is None, len(%s) == len(%s))' % (_SF, _FR, _FD, _ST)),
+              ('row-table-names-distinct-spikes', 'implies(%s is not None and %s is not None, len(%s) == len(%s) and all(%s[a] >= 0 for a in range(len(%s))) and all(%s[a] != %s[b] for a in range(len(%s)) for b in range(a + 1, len(%s))))' % (_SF, _FR, _FR, _FD, _FR, _FR, _FR, _FR, _FR, _FR)),
+              # with a row table the request is a spike-id subset: no spike twice (any order)
+              ('requested-spikes-distinct-when-listed', 'implies(%s is not None and %s is not None, all(spike_ids[a] != spike_ids[b] for a in range(len(spike_ids)) for b in range(a + 1, len(spike_ids))))' % (_SF, _FR))],
+    # stepping stones on the row-table branch: where a requested, listed spike ends up
+    cuts=[('rows_out = _index_of', 'listed-requested-spikes-have-a-position-in-s',
+           'all(all(implies(%s[q] == spike_ids[i], any(s[m] == spike_ids[i] and rows[m] == q and rows_out[m] == i for m in range(len(s)))) for q in range(len(%s))) for i in range(len(spike_ids)))' % (_FR, _FR)),
+          ('cols = np.tile', 'identity-columns-name-themselves',
+           'all(all(implies(0 <= channel_ids[k] and channel_ids[k] < width(cols), cols[i][channel_ids[k]] == channel_ids[k]) for k in range(len(channel_ids))) for i in range(len(spike_ids)))'),
+          ('features[rows_out, ...] =', 'listed-requested-spikes-get-their-stored-row',
+           'implies(%s is not None, all(all(implies(%s[q] == spike_ids[i], all(features[i][j] == %s[q][j] for j in range(width(%s)))) for q in range(len(%s))) for i in range(len(spike_ids))))' % (_FR, _FR, _FD, _FD, _FR))],
+    ensures=[('nothing-without-a-store', 'iff(result is None, %s is None)' % _SF),
+             ('one-row-per-spike-one-column-per-channel', 'implies(%s is not None, len(result) == len(spike_ids) and width(result) == len(channel_ids) and depth(result) == depth(%s))' % (_SF, _FD)),
+             ('all-spikes-stored-identity-columns-values', 'implies(%s is not None and %s is None and %s is None, all(%s for i in range(len(spike_ids))))' % (_SF, _FR, _FC, _VAL_IDENT_A.replace('ROW', 'spike_ids[i]'))),
+             ('all-spikes-stored-identity-columns-zero-elsewhere', 'implies(%s is not None and %s is None and %s is None, all(%s for i in range(len(spike_ids))))' % (_SF, _FR, _FC, _VAL_IDENT_B.replace('ROW', 'spike_ids[i]'))),
+             ('all-spikes-stored-column-table', 'implies(%s is not None and %s is None and %s is not None, all(%s for i in range(len(spike_ids))))' % (_SF, _FR, _FC, _VAL_TABLE.replace('ROW', 'spike_ids[i]'))),
+             # "values are claimed for stored spikes only": q ranges over the stored rows, the clause speaks about the requested spikes listed there
+             ('listed-spikes-identity-columns-values', 'implies(%s is not None and %s is not None and %s is None, all(all(implies(%s[q] == spike_ids[i], %s) for q in range(len(%s))) for i in range(len(spike_ids))))' % (_SF, _FR, _FC, _FR, _VAL_IDENT_A.replace('ROW', 'q'), _FR)),
+             ('listed-spikes-identity-columns-zero-elsewhere', 'implies(%s is not None and %s is not None and %s is None, all(all(implies(%s[q] == spike_ids[i], %s) for q in range(len(%s))) for i in range(len(spike_ids))))' % (_SF, _FR, _FC, _FR, _VAL_IDENT_B.replace('ROW', 'q'), _FR)),
+             ('listed-spikes-column-table', 'implies(%s is not None and %s is not None and %s is not None, all(all(implies(%s[q] == spike_ids[i], %s) for q in range(len(%s))) for i in range(len(spike_ids))))' % (_SF, _FR, _FC, _FR, _VAL_TABLE.replace('ROW', 'q'), _FR))])
